@@ -123,7 +123,7 @@ fn check_size(id: u8, w: u32, h: u32, pixels: &[(u32, u32)], rng: &mut Rng, rep:
         rep.count("from_bytes_lengths_tried");
         let content: Vec<u8> = rng.bytes(len);
         let r = catch(|| {
-            let a = Page::from_bytes(w, h, content.clone()).map(|p| (p.as_bytes().to_vec(), p.width(), p.height(), p.id()));
+            let a = Page::from_bytes(w, h, refs::owned_with_slack(&content, len)).map(|p| (p.as_bytes().to_vec(), p.width(), p.height(), p.id()));
             let b = Page::from_bytes(w, h, &content[..]).map(|p| (p.as_bytes().to_vec(), p.width(), p.height(), p.id()));
             (a, b)
         });
@@ -240,7 +240,7 @@ fn check_size(id: u8, w: u32, h: u32, pixels: &[(u32, u32)], rng: &mut Rng, rep:
                 }
                 let bytes = p.as_bytes().to_vec();
                 let from_slice = Page::from_bytes(w, h, &bytes[..]).ok();
-                let from_vec = Page::from_bytes(w, h, bytes.clone()).ok();
+                let from_vec = Page::from_bytes(w, h, refs::owned_with_slack(&bytes, bytes.len() * 16 + w as usize)).ok();
                 let fresh = Page::new(PageId(id), w, h);
                 let blank = bytes == fresh.as_bytes();
                 let mut bad = vec![];
